@@ -468,6 +468,32 @@ def gen(seed, tier):
             ops += [req(r, 50, own[k], 127250), 'P']
         ops += ['A', 'T %d' % (delay - 1), 'P', 'T 2', 'P', 'T %d' % (10 * 255 + 200), 'P', 'P']
         cases.append(line + ' | ' + ' ; '.join(ops))
+    # 5b. two deferred answers of ONE device with different retry instants (product information: +187+8*source, configuration
+    #     information: +187+10*source): the requests arrive `gap` ms apart in either order while the bus is blocked; the first retry that
+    #     succeeds must not cancel the other one (seed C08-2: the per-device "has pending" gate recomputed from due instead of armed timers)
+    for _ in range(30 * N):
+        ndev = r.choice([1, 1, 2, 3])
+        q = r.choice([1, 2, 3, 5, 8])
+        line, ndev, src0, mode = cfg_line(r, ndev=ndev, q=q, src0=r.choice([0, 1, 22, 60, 100, 200, 240]), lists=False)
+        own = [own_addr(src0, i) for i in range(ndev)]
+        k = r.randrange(ndev)
+        first, second = r.choice([(126996, 126998), (126998, 126996)])
+        gap = r.choice([0, 1, 2, 10, 50, 100, 150, 2 * own[k], 2 * own[k] + 1, max(2 * own[k] - 1, 0), 300, 1000])
+        hold = r.choice([0, 1, 30, 100])
+        d1 = 187 + (8 if first == 126996 else 10) * own[k]
+        d2 = gap + 187 + (8 if second == 126996 else 10) * own[k]
+        ops = ['A ' + '0' * 150, req(r, 50, r.choice([own[k], 255]), first), 'P', 'T %d' % gap, req(r, 51, r.choice([own[k], 255]), second), 'P']
+        if r.random() < 0.3:
+            ops += [req(r, 50, own[k], r.choice([127250, 60928, 126464])), 'P']
+        ops += ['T %d' % hold, 'A']
+        now = gap + hold
+        for due in sorted({d1, d2}):
+            for tgt in (due - 1, due + 1):
+                if tgt > now:
+                    ops += ['T %d' % (tgt - now), 'P']
+                    now = tgt
+        ops += ['T %d' % (10 * 255 + 200), 'P', 'P', 'T 3000', 'P']
+        cases.append(line + ' | ' + ' ; '.join(ops))
     # 6. devices without a valid address (252, 253, 254): only the address claim may be sent
     #    (254 is not configured: Open() replaces the null address by a free one)
     for src0 in (252, 253, 250):
